@@ -28,9 +28,14 @@ COLLIDE_TYPES = [
     ("*CallInfo", "callInfoParam", 9, False), ("[]CallInfo", "callInfos", 9, False), ("ext.Mock", "mockParam", 9, False),
     ("*ext.CallInfo", "callInfoParam", 9, False), ("ext.CallInfo", "callInfoParam", 9, False), ("[]*Mock", "mocks", 9, False),
 ]
-TYPE = {t[0]: t for t in TYPES + COLLIDE_TYPES}
+# reference-typed parameters whose IDENTITY matters (out buffers as in io.Reader): slices incl. named slice types, maps, pointers
+REF_TYPES = [("[]byte", "bytes", 9, True), ("Bytes", "bytes", 9, True), ("Names", "names", 9, True), ("[]T", "ts", 9, False),
+             ("[]int", "ints", 9, True), ("map[string]int", "stringToInt", 9, False), ("*T", "t", 9, True), ("[]*T", "ts", 9, False),
+             ("[][]byte", "bytess", 9, False)]
+TYPE = {t[0]: t for t in TYPES + COLLIDE_TYPES + REF_TYPES}
 VAR_BASE = {"string": "strings", "int": "ints", "error": "errs", "interface{}": "ifaceVals", "any": "vs", "*T": "ts",
-            "T": "ts", "[]byte": "bytess", "func() int": "fns", "Mock": "mocks", "*Mock": "mocks", "CallInfo": "callInfos"}
+            "T": "ts", "[]byte": "bytess", "func() int": "fns", "Mock": "mocks", "*Mock": "mocks", "CallInfo": "callInfos",
+            "Bytes": "bytess", "Names": "namess", "[]int": "intss"}
 GENERIC_TYPES = [("K", "v", 9), ("V", "v", 9), ("[]V", "vs", 9), ("map[K]V", "vToV", 9), ("func(K) V", "fn", 9), ("*V", "v", 9)]
 # parameter names: lower-case ASCII, no template local (mock, callInfo), no package qualifier (sync, fmt, context),
 # no two names of one method with the same exported form (C01's findings, owned there)
@@ -194,6 +199,32 @@ def gen_collide_method(rng, name):
     return m
 
 
+def gen_ref_method(rng, name):
+    """io.Reader-shaped methods and relatives: slice (also named slice types, variadics of slices), map and pointer
+    parameters - the user function must get the caller's very slice / map / pointer, not an equal copy."""
+    def mk(params, results, variadic=False):
+        m = {"name": name, "params": params, "results": results, "variadic": variadic, "ref": True}
+        m["resolved"] = resolved_names(m)
+        return m
+    def P(nm, ty, variadic=False):
+        return {"name": nm, "type": ty, "max": TYPE[ty][2], "variadic": variadic}
+    R = lambda ty: {"name": None, "type": ty, "max": TYPE[ty][2]}
+    if rng.random() < 0.4:
+        return mk([P("p", "[]byte")], [R("int"), R("error")])                     # Read(p []byte) (int, error)
+    np = rng.randint(1, 3)
+    variadic = rng.random() < 0.4
+    names = rng.sample(["p", "dst", "buf", "out", "m", "names", "x"], np) if rng.random() < 0.7 else [None] * np
+    params = []
+    for i in range(np):
+        last_var = variadic and i == np - 1
+        t = rng.choice([x for x in REF_TYPES if x[3]] if last_var else REF_TYPES)
+        params.append(P(names[i], t[0], last_var))
+    m = mk(params, [R(rng.choice(["int", "error"])) for _ in range(rng.choice([0, 1, 2]))], variadic)
+    if len({exported(x) for x in m["resolved"]}) != len(m["resolved"]):
+        return gen_ref_method(rng, name)
+    return m
+
+
 def gen_iface(rng, name, generic):
     nm = rng.randint(1, 5)
     names = rng.sample(MNAMES, nm)
@@ -207,6 +238,8 @@ def gen_iface(rng, name, generic):
         ms = [gen_method(rng, n, generic) for n in names]
     if rng.random() < 0.45:
         ms.append(gen_long_method(rng, rng.choice(["Transfer", "Dispatch", "Replicate"])))
+    if rng.random() < 0.45:
+        ms.append(gen_ref_method(rng, rng.choice(["Read", "Write", "Fill"])))
     if rng.random() < 0.35:
         # "Calls" is also a member-like method name: the mock then has CallsFunc, Calls(), CallsCalls()
         ms.append(gen_collide_method(rng, rng.choice(["Register", "Audit", "Calls"])))
@@ -268,7 +301,8 @@ def render_pkg(pkg):
     out = ["package %s" % pkg["name"], ""]
     if any("ext." in v["type"] for it in pkg["ifaces"] for m in it["methods"] for v in m["params"] + m["results"]):
         out += ['import "%s/ext"' % MOD, ""]
-    out += ["type T struct{ X int }", "type MyInt int", "type Mock struct{ X int }", "type CallInfo struct{ X int }", ""]
+    out += ["type T struct{ X int }", "type MyInt int", "type Mock struct{ X int }", "type CallInfo struct{ X int }",
+            "type Bytes []byte", "type Names []string", ""]
     for it in pkg["ifaces"]:
         out.append("type %s%s interface {" % (it["name"], "[K comparable, V any]" if it["generic"] else ""))
         for m in it["methods"]:
@@ -589,6 +623,14 @@ def oracle(pkg, it, hist, outs):
         if op["op"] != "call":
             continue
         got = o.get("inv") or []
+        # identity of reference-typed arguments (oracle-only observation; in the model an argument is a value)
+        for x in got:
+            if x.get("ident"):
+                errs.append("op %d: %sFunc did not receive the caller's own slice/map/pointer for parameter(s) %r (same elements, other "
+                            "backing array / object): not exactly the call's arguments" % (i, x.get("m"), x["ident"]))
+        for y in [o] + [x["nested"] for x in got if x.get("nested")]:
+            if y.get("lost_writes"):
+                errs.append("op %d: what the user function wrote into its slice/map parameter(s) %r never reached the caller's argument" % (i, y["lost_writes"]))
         einv, ginv = [x for x in seen if "m" in x], [x for x in got if "m" in x]
         if [(x["m"], x["args"]) for x in einv] != [(x["m"], x.get("args") or []) for x in ginv]:
             errs.append("op %d: user functions must run once per call that reaches them, with the call's arguments: expected %r, observed %r" % (
@@ -949,7 +991,7 @@ def check(ctx, only=None):
         return any(x["k"] == "records" and len(x["l"]) >= 2 for x in o)
     distinct = len({json.dumps([mock_term(c["pkg"], c["iface"]), c["hist"]], sort_keys=True) for c, o in zip(cases, outs) if nontrivial(o)})
     hist = {"ops": {}, "outcomes": {}, "params_per_method": {}, "results_per_method": {}, "param_style": {}, "options": {},
-            "types": {}, "template_identifier_collision_methods": {}, "long_name_methods": {}, "long_name_call_list_bytes": {}, "option_level": {}, "nested_ops_in_installed_funcs": {}, "nested_outcomes": {}, "variadic_methods": 0, "generic_interfaces": 0, "methods": 0, "interfaces": 0}
+            "types": {}, "reference_argument_methods": {}, "template_identifier_collision_methods": {}, "long_name_methods": {}, "long_name_call_list_bytes": {}, "option_level": {}, "nested_ops_in_installed_funcs": {}, "nested_outcomes": {}, "variadic_methods": 0, "generic_interfaces": 0, "methods": 0, "interfaces": 0}
     hist["mocks_per_mixed_file"], hist["mixed_via"], hist["mixed_option_values"] = {}, {}, {}
     for pkg in pkgs:
         for v, _ in views(pkg):
@@ -979,6 +1021,9 @@ def check(ctx, only=None):
                         key = ("unnamed " if prm["name"] is None else "_ " if prm["name"] == "_" else "named %s " % prm["name"] if prm["name"] in ("calls", "callsParam", "mockParam", "callInfoParam") or prm["name"].startswith("lock") else "") + \
                               ("..." if prm["variadic"] else "") + prm["type"]
                         hist["template_identifier_collision_methods"][key] = hist["template_identifier_collision_methods"].get(key, 0) + 1
+                if m.get("ref"):
+                    key = "(" + ", ".join(("..." if prm["variadic"] else "") + prm["type"] for prm in m["params"]) + ")"
+                    hist["reference_argument_methods"][key] = hist["reference_argument_methods"].get(key, 0) + 1
                 if m.get("long"):
                     w = sum(len(x) + 2 for x in m["resolved"]) + (3 if m["variadic"] else 0)
                     key = ("variadic ..." + m["params"][-1]["type"]) if m["variadic"] else "non-variadic"
